@@ -104,22 +104,28 @@ def aggregate_dispatch(a: int, b: int, mv: int, vv: int, mi: int) -> bool:
         B.stats = saved
 
 
+def _key(x):
+    """1, True and 1.0 are equal and hash alike - and are three different parameter values"""
+    return (type(x).__name__, x)
+
+
 class GM(Model):
     """model whose score is looked up from a table by its parameter and the repetition number"""
     __slots__ = ['x', 'rep']
     built = []
     table = {}
+    typed = ()
 
     def __init__(self, x, **extra):
         super().__init__(logger=NULL_LOGGER)
         self.x = x
         GM.built.append(self)
-        self.rep = len([m for m in GM.built if m.x == x]) - 1
+        self.rep = len([m for m in GM.built if _key(m.x) == _key(x)]) - 1
         self.complete()
 
 
 def _score(model):
-    return GM.table[(model.x, model.rep)]
+    return GM.table[(_key(model.x), model.rep)] if _key(model.x) in GM.typed else GM.table[(model.x, model.rep)]
 
 
 def selection(s0: int, s1: int, s2: int, s3: int, parity: bool, o0: int, o1: int, o2: int, s4: int = 0, s5: int = 0) -> bool:
@@ -133,12 +139,18 @@ def selection(s0: int, s1: int, s2: int, s3: int, parity: bool, o0: int, o1: int
     scores = [s0, s1, s2, s3, s4, s5][:k]
     GM.built = []
     GM.table = {(i, 0): scores[i] for i in range(k)}
+    GM.typed = ()
+    values = list(range(k))
+    if hx.P.get('values') == 'equal_but_distinct':
+        values = [1, True, 1.0, 0, False][:k]
+        GM.typed = tuple(_key(v) for v in values)
+        GM.table = {(_key(values[i]), 0): scores[i] for i in range(k)}
     mode = ScoreMode.MAX if parity else ScoreMode.MIN
     saved = B.Pool
     B.Pool = FakePool
     FakePool.order = [o0, o1, o2]          # the pool completes work in an arbitrary (symbolic) order
     try:
-        xs = list(range(k))
+        xs = list(values)
         if hx.P.get('values') == 'iterator':        # a one-shot, length-less iterable of values is still a list of values
             xs = iter(xs)
         elif hx.P.get('values') == 'generator':
@@ -149,7 +161,7 @@ def selection(s0: int, s1: int, s2: int, s3: int, parity: bool, o0: int, o1: int
     if len(results) != k:
         return hx.end(hx.fail("number of results", got=len(results)))
     for i, r in enumerate(results):
-        if r.get("x") != i or r.get("records") != [scores[i]] or r.get("score") != scores[i] or len(r) != 3:
+        if _key(r.get("x")) != _key(values[i]) or r.get("records") != [scores[i]] or r.get("score") != scores[i] or len(r) != 3:
             return hx.end(hx.fail("reported combination", index=i, got=r))
     # the first combination attaining the optimum
     bi = 0
@@ -291,7 +303,7 @@ def obligations(tier):
         X("aggregate_dispatch", aggregate_dispatch, labels=("mean", "variance", "invalid_mode"), timeout=300,
           encoded=(B._score_model_for_search,)),
         X("selection", selection, parts=[{"k": k, "procs": p} for k in ((1, 2, 3, 4) if tier == "quick" else (1, 2, 3, 4, 5, 6)) for p in (1, 2) if not (p == 2 and k == 1) and not (k == 5 and tier != "quick")] +
-          [{"k": 3, "procs": 1, "values": v} for v in ("iterator", "generator")] + [{"k": 5, "procs": 3}, {"k": 5, "procs": 2}],
+          [{"k": 3, "procs": 1, "values": v} for v in ("iterator", "generator")] + [{"k": 3, "procs": 1, "values": "equal_but_distinct"}, {"k": 5, "procs": 2, "values": "equal_but_distinct"}] + [{"k": 5, "procs": 3}, {"k": 5, "procs": 2}],
           labels=("best_last", "best_first"), labels_for=lambda p: ("best_last", "best_first") if p["k"] > 1 else ("best_first",),
           timeout=600, encoded=enc, bounds={"combinations": "1..4 (quick) / 1..6 (thorough)", "aggregates": "all ints"}),
         X("reuse", reuse, parts=[{"procs2": 1}, {"procs2": 2}], labels=("second_search",), timeout=600, encoded=enc + (B.ParameterList.build,)),
